@@ -132,7 +132,21 @@ func c03Blocks(c *Ctx) {
 	// the noasm wrapper forwards to the generic routine
 	if g := c.fnOpt("chacha20", "(*Cipher).xorKeyStreamBlocks"); g != nil && len(g.Blocks) > 0 {
 		cs := calls(g, func(n string) bool { return strings.HasSuffix(n, "Cipher).xorKeyStreamBlocksGeneric") })
+		callsAsm := false
+		allInstrs(g, func(in ssa.Instruction) {
+			if cc := callCommon(in); cc != nil {
+				if cal := cc.StaticCallee(); cal != nil && len(cal.Blocks) == 0 && cal.Pkg == g.Pkg {
+					callsAsm = true
+				}
+			}
+		})
 		ok := len(cs) == 1 && cs[0].Common().Args[1] == ssa.Value(g.Params[1]) && cs[0].Common().Args[2] == ssa.Value(g.Params[2])
+		if callsAsm {
+			// an assembly-backed wrapper (arm64, ppc64, s390x ...): its counter
+			// advance is inside the assembly and is an assumption of C03.position
+			c.ok("C03.block-loop", "xorKeyStreamBlocks (assembly build)", g, "assembly-backed; the counter advance by len/64 is assumed, not decided")
+			return
+		}
 		c.check(ok, "C03.block-loop", "xorKeyStreamBlocks (portable build)", g, "forwards (dst, src) to the generic routine", "the portable xorKeyStreamBlocks does not forward to the generic routine")
 	}
 }
